@@ -224,14 +224,17 @@ def obligations(tier: str):
         b = {"hc": 3, "1p1": 2, "gp": 3}[alg] + (1 if T else 0)
         for rn in ("tree",) + (("ge", "dsge") if T else ()):
             rc = dict(reps[rn])
-            if alg == "gp" and (not T or rn != "tree"):
-                rc["max_depth"] = 1 if rn != "dsge" else 2  # one program shape: the generation loop itself is what is compared
-            add(f"{alg}_{rn}_other_process", alg=alg, budget=b, mode="other_process", **rc)
+            if alg == "gp":
+                if rn == "dsge":
+                    continue  # did not exhaust in 3000 s even at depth 2
+                rc["max_depth"] = 1  # one program shape: the generation loop itself is what is compared
+            bb = b - 1 if (T and alg == "hc" and rn != "tree") else b  # hc over GE / dSGE with budget 4: 1500 paths, not exhausted in 3000 s
+            add(f"{alg}_{rn}_other_process", alg=alg, budget=bb, mode="other_process", **rc)
         if T or alg == "1p1":
             add(f"{alg}_tree_same_process", alg=alg, budget=b, mode="same_process", **reps["tree"])
     # unrefined float field: the value is synthesised with normalvariate on the gene-backed source
     # (state kept between calls / searches would show up in the second search of the same process)
-    for rn in ("ge",) + (("sge",) if T else ()):
+    for rn in ("ge",):  # (SGE: 3400 paths without a failing one, not exhausted in 3000 s)
         rc = dict(reps[rn], fixture="f3f", concrete_draws=True, gene_length=2 if rn == "ge" else 1, max_depth=1)
         add(f"rs_{rn}_float_same_process", alg="rs", budget=3, mode="same_process", **rc)
     # crossover between two individuals (the children are what the second generation evaluates)
